@@ -61,6 +61,30 @@ def eff_simple(c):
     return (lb, ub, ext)
 
 
+def hull(c):
+    """(lb, ub) hull of the root of any constraint expression; None = open; None result = unconstrained"""
+    op = c["op"]
+    if op == "none":
+        return None
+    if op == "range":
+        return (None if c["lb"]["k"] != "V" else big_to_int(c["lb"]["v"]), None if c["ub"]["k"] != "V" else big_to_int(c["ub"]["v"]))
+    if op in ("ext", "except"):
+        return hull(c["a"])
+    a, b = hull(c["a"]), hull(c["b"])
+    if op == "union":
+        if a is None or b is None:
+            return None
+        return (None if None in (a[0], b[0]) else min(a[0], b[0]), None if None in (a[1], b[1]) else max(a[1], b[1]))
+    # inter / serial: the intersection
+    if a is None:
+        return b
+    if b is None:
+        return a
+    lo = [x for x in (a[0], b[0]) if x is not None]
+    hi = [x for x in (a[1], b[1]) if x is not None]
+    return (max(lo) if lo else None, min(hi) if hi else None)
+
+
 def op_value(scn, op):
     """the value an operation is about: BuildVal sessions check op.val, others the session value"""
     for o in scn["plan"]:
@@ -275,8 +299,8 @@ def _bxer_trailing_lf(M, scn, op, ev):
 def _int_wide(t, v):
     if t["k"] != "INTEGER":
         return False
-    e = eff_simple(t["c"])
-    return e is not None and any(b not in (None, "?") and not -2 ** 31 <= b < 2 ** 31 for b in e[:2])
+    e = hull(t["c"])
+    return e is not None and any(b is not None and not -2 ** 31 <= b < 2 ** 31 for b in e)
 
 
 def _int_ulong32_above(t, v):
@@ -314,7 +338,7 @@ def _real_subnormal_any(M, scn, op, ev):
 
 
 def _int_under_wide_types_option(M, scn, op, ev):
-    wide = any("-fwide-types" in str(o.get("style", "")) for o in scn["plan"])
+    wide = any("-fwide-types" in str(o.get("style", "")) for o in scn["plan"]) or "-fwide-types" in scn.get("_flags", ())
     return wide and any(t["k"] in ("INTEGER", "ENUM") for t, v in leaves(M, {"k": "REF", "n": scn["ty"]}, scn["val"]))
 
 
